@@ -962,13 +962,17 @@ package lang
 //@   assert[C02] whole-root-otherwise: old(e.root.Value.Tag) != ValueArray ==> e.ruleRoot == e.root && arg1 == patternRules @ Evaluator.evalRules
 //@   loop 0 invariant protocol: e != nil && e.lexer != nil && frameOK(e.stackTop) && e.stackTop == old(e.stackTop) && !$faulted && e.root == old(e.root) && e.evalDepth == old(e.evalDepth)
 
-//@ func EvalExpression [C01,C11,C14]
+// C14 (-r E behaves as BEGINFILE { $ = E }): the selection is what that assignment would store -- a
+// scalar or null is a fresh copy detached from the value it was looked up in, a function is an error.
+// C02: every selector yields a root (or an error), so no (value, selector) pair is skipped.
+//@ func EvalExpression [C01,C02,C11,C14]
 //@   modifies valueHeap
 //@   ensures[C09,C14] a-selected-null-is-a-plain-null: err == nil && result0.Value.Tag == ValueNil ==> result0.Value.ParentObj == nil && fresh(result0)
+//@   ensures[C09,C14] the-selection-is-what-assigning-it-to-the-root-would-store: err == nil ==> fresh(result0) && result0.Value.Tag != ValueFn && result0.Value.Tag != ValueNativeFn && (result0.Value.Tag != ValueArray && result0.Value.Tag != ValueObj && result0.Value.Tag != ValueUnknown ==> result0.Value.ParentObj == nil)
 //@   requires !$faulted && isGoSrc(rootValue)
 //@   updates $faulted, $out
 //@   ensures[C01] errkind: err == nil || isSyn(err) || isRT(err) || err == errExit
-//@   ensures[C01] result-or-error: err == nil ==> result0 != nil
+//@   ensures[C01,C02] result-or-error: err == nil ==> result0 != nil
 //@   ensures[C11] fault-latched: $faulted <==> (isRT(err))
 
 // The root frame is where globals live.
